@@ -316,7 +316,7 @@ class Fxp():
         return self._dtype
     
     def _qfmt(self):
-        return re.compile(r'(s|u|q|uq|qu)(\d+)(\.[+-]?\d+)?')
+        return re.compile(r'(s|u|q|uq|qu)([+-]?\d+)(\.[+-]?\d+)?')   # (the integer part may be negative: Q-3.11 is 8 bits with 11 fractional)
     
     def _fxpfmt(self):
         return re.compile(r'fxp-(s|u)(\d+)/([+-]?\d+)(-complex)?')
